@@ -18,6 +18,8 @@ type c08Case struct {
 	Mul        int      `json:"mul"`                   // rtt_high = rtt_low * Mul/100 + DHigh  (Mul >= 100)
 	DHigh      int64    `json:"d_high"`                // >= 1 when Mul == 100
 	AfterProbe int64    `json:"after_probe,omitempty"` // gradient, >0: the prefix is cut right after its first baseline probe and one saturated sample with this RTT sets the new baseline
+	FromPrev   bool     `json:"from_prev,omitempty"`   // rtt_low = current baseline, rtt_high relative to the baseline in force before its latest change (when that was higher)
+	ZeroLow    bool     `json:"zero_low,omitempty"`    // gradient2 with d_low == 0: rtt_low = 0
 	Pm         int      `json:"pm,omitempty"`          // further rtt_low * Pm/1000 added to rtt_high (ratios just above 1)
 }
 
@@ -52,6 +54,24 @@ func genC08(t *rapid.T) c08Case {
 	}
 	c.DLow = rapid.OneOf(rapid.Just(int64(0)), rapid.Int64Range(0, 1000), rapid.Int64Range(0, 1_000_000_000)).Draw(t, "dlow")
 	c.Mul = rapid.SampledFrom([]int{100, 100, 101, 110, 150, 200, 400, 1000}).Draw(t, "mul")
+	c.FromPrev = rapid.IntRange(0, 3).Draw(t, "fromPrev") == 0
+	c.ZeroLow = c.Cfg.Algo == "gradient2" && c.DLow == 0 && rapid.Bool().Draw(t, "zeroLow")
+	if c.Cfg.Algo == "vegas" && rapid.IntRange(0, 2).Draw(t, "vegasProbing") == 0 {
+		// frequent probes; optionally stop the history right after the baseline dropped
+		c.Cfg.ProbeMult = rapid.IntRange(1, 3).Draw(t, "pm3")
+		if rapid.Bool().Draw(t, "cutAfterDrop") {
+			c.AfterProbe = 1
+		}
+	}
+	c.FromPrev = rapid.IntRange(0, 3).Draw(t, "fromPrev") == 0
+	c.ZeroLow = c.Cfg.Algo == "gradient2" && c.DLow == 0 && rapid.Bool().Draw(t, "zeroLow")
+	if c.Cfg.Algo == "vegas" && rapid.IntRange(0, 2).Draw(t, "vegasProbing") == 0 {
+		// frequent probes; optionally stop the history right after the baseline dropped
+		c.Cfg.ProbeMult = rapid.IntRange(1, 3).Draw(t, "pm3")
+		if rapid.Bool().Draw(t, "cutAfterDrop") {
+			c.AfterProbe = 1
+		}
+	}
 	c.Pm = rapid.OneOf(rapid.Just(0), rapid.Just(0), rapid.IntRange(1, 999), rapid.IntRange(1, 150)).Draw(t, "pm")
 	c.DHigh = rapid.OneOf(rapid.Just(int64(1)), rapid.Int64Range(1, 1000), rapid.Int64Range(1, 1_000_000_000)).Draw(t, "dhigh")
 	return c
@@ -65,24 +85,38 @@ func runC08(_ *testing.T, c c08Case) kit.Outcome {
 	probed := false
 	run := func(high bool) res {
 		b := buildLimit(c.Cfg, nil)
+		var prevBase int64 // the baseline in force before the most recent change of the baseline
 		for _, s := range c.Prefix {
 			had, _ := b.noLoad()
 			b.Outer.OnSample(s.Start, s.RTT, s.inflight(b.Outer.EstimatedLimit()), s.Drop)
-			if now, _ := b.noLoad(); c.AfterProbe > 0 && had != 0 && now == 0 {
+			now, _ := b.noLoad()
+			if now != had {
+				prevBase = had
+			}
+			if c.AfterProbe > 0 && c.Cfg.Algo == "gradient" && had != 0 && now == 0 {
 				b.Outer.OnSample(0, c.AfterProbe, b.Outer.EstimatedLimit(), false)
 				probed = true
 				break
+			}
+			if c.AfterProbe > 0 && c.Cfg.Algo == "vegas" && had != 0 && now < had {
+				break // right after the baseline dropped (through a faster sample, or through a probe that landed on one)
 			}
 		}
 		var r res
 		r.pre = b.Outer.EstimatedLimit()
 		r.base, _ = b.noLoad()
 		low := r.base + c.DLow
-		if low < 1 {
-			low = 1
+		if c.FromPrev && prevBase > low {
+			low = r.base // rtt_low sits at the current baseline, rtt_high is taken relative to the previous one (below)
+		}
+		if low < 1 && !(c.Cfg.Algo == "gradient2" && c.ZeroLow) {
+			low = 1 // (Gradient2 keeps no baseline: there the lower RTT may be 0, the smallest valid RTT)
 		}
 		rtt := low
 		if high {
+			if c.FromPrev && prevBase > low {
+				low = prevBase
+			}
 			rtt = low/100*int64(c.Mul) + low%100*int64(c.Mul)/100 + c.DHigh
 			if low < 1<<50 {
 				rtt += low * int64(c.Pm) / 1000
